@@ -499,6 +499,12 @@ def run(ctx):
     check_monotone(ctx, classes)
     check_counting(ctx)
     check_tracker(ctx)
+    # one job per *segment*: the segments are the consecutive runs split_circuit hands out, each holding at least one operation
+    # (decided once, by C01-D1)
+    from ..common import share_rule
+    from . import c01
+
+    share_rule(ctx, "C01", c01.check_split_circuit, "C14-D4 counting-discipline")
     ctx.floor("C14-D1", 9)
     ctx.floor("C14-D2", 6)
     ctx.floor("C14-D3", 8)
